@@ -104,3 +104,17 @@ func H_DEV_Assoc(shape int) {
 func H_DEV_Nop(shape int) {}
 
 func H_DEV_Open(shape int) { openDry(stubDialector{}) }
+
+func H_DEV_M2M(shape int) {
+	s := NewStore()
+	db := openReal(stubDialector{}, s, nil)
+	next := int64(10)
+	s.OnExec = func(text string, args []driver.Value) Result { next += 10; return Result{LastID: next, Affected: 1} }
+	sp := Speaker{Name: "s", Langs: []Lang{{Name: "go"}, {Name: "ml"}}}
+	res := db.Create(&sp)
+	verifrt.Observe("err", res.Error)
+	verifrt.Observe("log", s.Kinds())
+	res = db.Select("Langs").Delete(&sp)
+	verifrt.Observe("err2", res.Error)
+	verifrt.Observe("log2", s.Kinds())
+}
